@@ -91,3 +91,13 @@ pub fn simplify<K, A: Clone>(
 
     DFA::from_states(new_states)
 }
+
+#[cfg(lexgen_verif)]
+impl<A: crate::verif::VerifVal> crate::verif::VerifVal for Trans<A> {
+    fn vv(&self) -> String {
+        match self {
+            Trans::Trans(t) => t.vv(),
+            Trans::Accept(accs) => format!("A[{}]", super::verif_accepting(accs)),
+        }
+    }
+}
